@@ -27,6 +27,10 @@ type World struct {
 	HostKey types.PrivateKey
 	Addr    types.Address // v1-style address, spendable in v1 and (via unlock-conditions policy) in v2
 	Other   types.Address // a foreign address (never spent)
+	// UniqueWindows makes the builder give every v1 contract a window end that no other live
+	// contract of the same chain has, so that expiration lists never hold two ids (used by the
+	// checks of properties other than C02, whose known expiry-order finding needs shared ends).
+	UniqueWindows bool
 }
 
 func seedKey(seed int64, role string) types.PrivateKey {
@@ -93,6 +97,7 @@ type Builder struct {
 	L    *Ledger
 	rng  *rand.Rand
 	used map[types.Hash256]bool
+	ends map[uint64]bool // window ends taken by contracts formed/re-windowed in this block
 	v1   []types.Transaction
 	v2   []types.V2Transaction
 	Ops  []string // names of the operations that were applied
@@ -100,7 +105,7 @@ type Builder struct {
 }
 
 func NewBuilder(w *World, l *Ledger, rng *rand.Rand) *Builder {
-	return &Builder{W: w, L: l, rng: rng, used: map[types.Hash256]bool{}, salt: rng.Uint64()}
+	return &Builder{W: w, L: l, rng: rng, used: map[types.Hash256]bool{}, ends: map[uint64]bool{}, salt: rng.Uint64()}
 }
 
 func (b *Builder) childHeight() uint64 { return b.L.Height() + 1 }
@@ -169,6 +174,14 @@ func (b *Builder) signV2(txn *types.V2Transaction) {
 }
 
 func (b *Builder) uc() types.UnlockConditions { return types.StandardUnlockConditions(b.W.Key.PublicKey()) }
+
+// endFree reports whether a v1 contract may take window end e under UniqueWindows.
+func (b *Builder) endFree(e uint64) bool {
+	if !b.W.UniqueWindows {
+		return true
+	}
+	return len(b.L.Exp[e]) == 0 && !b.ends[e]
+}
 
 // ---- v1 operations
 
@@ -262,6 +275,10 @@ func (b *Builder) OpFC1(span uint64) bool {
 		return false
 	}
 	h := b.childHeight()
+	for !b.endFree(h + span + 2) {
+		span++
+	}
+	b.ends[h+span+2] = true
 	renter, host := types.Siacoins(10), types.Siacoins(5)
 	payout := taxAdjustedPayout(renter.Add(host))
 	if e.SiacoinOutput.Value.Cmp(payout) < 0 {
@@ -315,6 +332,12 @@ func (b *Builder) OpRev1(shift uint64) bool {
 	}
 	fc := e.FileContract
 	fc.RevisionNumber++
+	if shift != 0 {
+		for !b.endFree(fc.WindowEnd + shift) {
+			shift++
+		}
+		b.ends[fc.WindowEnd+shift] = true
+	}
 	fc.WindowEnd += shift
 	txn := types.Transaction{FileContractRevisions: []types.FileContractRevision{{ParentID: e.ID, UnlockConditions: b.uc(), FileContract: fc}}}
 	b.signV1(&txn)
